@@ -391,6 +391,8 @@ func c15(c *Ctx) (*report.Result, error) {
 	res.Analysed["service_methods"] = map[string]int{"WorkflowService": len(methods["WorkflowService"]), "AdminService": len(methods["AdminService"])}
 	res.RuleDoc["O15.7"] = "translation, access control and repair keep no memory between messages: no shipped function of the interceptor, proto/compat, auth and collect packages stores into package-level state, receiver fields or sync.Maps after construction - a cache keyed by message type or content makes the treatment of one message depend on the ones before it"
 	checkStateless(c, res, "O15.7", []string{"interceptor", "proto/compat", "auth", "collect"}, map[string]string{})
+	res.RuleDoc["O15.8"] = "no swallowed error in the files the mechanism lives in: no function returns a nil error on a path on which an error obtained from a call is known to be non-nil (io.EOF from a stream Recv, the normal end of a receive loop, is the one accepted idiom)"
+	checkNoSwallowedErrors(c, res, "O15.8", []string{"interceptor/access_control.go", "auth/access_control.go", "auth/policy.go", "proxy/cluster_connection.go"})
 	return res, nil
 }
 
